@@ -254,6 +254,19 @@ func (w *Worker) global(g *ssa.Global) *Obj {
 	if g.Pkg != nil && !w.ex.initAllowed(g.Pkg.Pkg.Path()) {
 		o.uninit = g.String()
 	}
+	if s := g.String(); s == "time.UTC" || s == "time.Local" {
+		o.uninit = "" // only ever passed to stubbed time functions
+	}
+	if g.String() == "crypto/rand.Reader" {
+		// the entropy source is a stub reader that yields arbitrary bytes
+		o.uninit = ""
+		if vp := w.ex.prog.ImportedPackage("vh/vstub"); vp != nil && vp.Type("RandReader") != nil {
+			rt := vp.Type("RandReader").Type()
+			w.objSeq++
+			ro := &Obj{id: w.objSeq, cells: append([]Value(nil), w.zeroCells(rt)...), label: "vstub.RandReader", pre: true}
+			o.cells[0] = Iface{t: types.NewPointer(rt), v: Ptr{obj: ro}}
+		}
+	}
 	w.globals[g] = o
 	return o
 }
